@@ -253,7 +253,10 @@ def run(ctx):
                 # the very same library object (already evaluated against the base data above) against the twin data: nothing
                 # it remembered from the first evaluation (packed arrays, unit conversions) may answer the second
                 if "data" in what and tw % 2 == 0:
-                    ll_same = np.asarray(jt.marginal_ln_likelihood(data2, pb.lib, in_memory=True), dtype=float)
+                    # ... and through the base problem's own prior object (physically the same prior as the twin's): whatever it
+                    # remembered about the base data's unit must not be applied to the twin data
+                    j_same = jt if tw % 4 == 0 else TheJoker(pb.prior, rng=np.random.default_rng(3), tempfile_path=ctx.tmpdir)
+                    ll_same = np.asarray(j_same.marginal_ln_likelihood(data2, pb.lib, in_memory=True), dtype=float)
                     ctx.evaluations += 1
                     ctx.distinct.add(repr(("same-library-object-other-data-unit", cls[1], cls[2])))
                     bad2 = ok & ~(np.abs(ll_same - want) <= tol)
